@@ -88,7 +88,13 @@ func Main(c *run.Ctx) {
 func runJob(c *run.Ctx, name string, start, n int) {
 	end := start + n
 	for restarts := 0; start < end; restarts++ {
-		out := c.RunChild(run.ChildSpec{Prop: "C16", Name: name, Cfg: childCfg{Start: start, N: end - start}, Timeout: 20 * time.Minute})
+		// every other chunk runs on one processor: what a parser goroutine gives back (pools, recycled buffers) is then
+		// what the next parser goroutine gets, while the requests parsed earlier are still being held for the merge
+		var env []string
+		if (start/max(n, 1))%2 == 1 {
+			env = []string{"GOMAXPROCS=1"}
+		}
+		out := c.RunChild(run.ChildSpec{Prop: "C16", Name: name, Cfg: childCfg{Start: start, N: end - start}, Env: env, Timeout: 20 * time.Minute})
 		if out.Completed {
 			return
 		}
